@@ -189,6 +189,39 @@ def loci_as_sets(ops):
     return None
 
 
+def cost_check():
+    """'every operation visits O(log n) entries': on a set of 2048 elements that count the comparisons made with them, a membership test, an
+    insertion, a removal and a discard of an absent element each make at most 8*log2(n) comparisons (the unchanged code: about 2*log2(n))"""
+    import math
+    n = 2048; cnt = [0]
+
+    class K:
+        __slots__ = ('v',)
+        def __init__(self, v): self.v = v
+        def __lt__(self, o): cnt[0] += 1; return self.v < o.v
+        def __gt__(self, o): cnt[0] += 1; return self.v > o.v
+        def __le__(self, o): cnt[0] += 1; return self.v <= o.v
+        def __ge__(self, o): cnt[0] += 1; return self.v >= o.v
+        def __eq__(self, o): cnt[0] += 1; return isinstance(o, K) and self.v == o.v
+        def __ne__(self, o): cnt[0] += 1; return not (isinstance(o, K) and self.v == o.v)
+        def __hash__(self): return hash(self.v)
+    rr = random.Random(5)
+    vals = list(range(0, 2 * n, 2)); rr.shuffle(vals)
+    ds = DrawSet()
+    for v in vals: ds.add(K(v))
+    bound = 8 * int(math.log2(n))
+    for (what, f) in [("a membership test of the largest element", lambda: K(2 * n - 2) in ds), ("a membership test of an absent element", lambda: K(n + 1) in ds),
+                      ("an insertion", lambda: ds.add(K(n - 1))), ("a removal", lambda: ds.remove(K(n - 1))), ("a discard of an absent element", lambda: ds.discard(K(3)))]:
+        cnt[0] = 0
+        try:
+            f()
+        except Exception as ex:
+            return f"{what} on a set of {n} elements raised {type(ex).__name__}"
+        if cnt[0] > bound:
+            return f"{what} on a set of {n} elements made {cnt[0]} comparisons (8*log2(n) = {bound})"
+    return None
+
+
 def exhaustive(k, nw, maxlen, U):
     kinds = [(o, e) for o in ('add', 'discard', 'remove') for e in range(U)]
     i = 0
@@ -226,6 +259,9 @@ if __name__ == '__main__':
     elif mode == 'corpus':
         cases = (json.load(open(f))['history'] for f in sys.argv[4:])
     keep_hist = mode in ('random', 'corpus')
+    if mode == 'random':
+        w = cost_check()
+        if w: VIOL.append(dict(msg=w, history=None))
     index = []; nlines = 0
     with open(os.path.join(out, 'ops.txt'), 'w') as fi, open(os.path.join(out, 'expected.txt'), 'w') as fe:
         for ops in cases:
